@@ -34,12 +34,13 @@ META = {
 
 OPTS = {"base": {}, "aliases": {"detect_aliases": True}, "rcv": {"replace_constant_values": True},
         "ev": {"expand_vectors": True},
+        "rpv": {"replace_parameter_values": True},     # parameters substituted: fixed = bb becomes a CONSTANT MX
         # two option sets that differ only in the VALUE of a non-boolean option
         "eva": {"expand_mx": True, "eliminable_variable_expression": r"_a\w*"},
         "evb": {"expand_mx": True, "eliminable_variable_expression": r"_b\w*"}}
-ATTRS = ["start", "min", "max", "nominal"]
-LIT = {"start": "1", "min": "-4", "max": "3", "nominal": "2"}
-PDEP = {"start": "p", "min": "-p", "max": "2 * p", "nominal": "p + 1"}
+ATTRS = ["start", "min", "max", "nominal", "fixed"]
+LIT = {"start": "1", "min": "-4", "max": "3", "nominal": "2", "fixed": "true"}
+PDEP = {"start": "p", "min": "-p", "max": "2 * p", "nominal": "p + 1", "fixed": "bb"}
 DUR = {"none": [], "lit": ["2"], "par": ["p"], "par_lit": ["p", "3"], "par_par2": ["p", "q"], "sum": ["p + q", "q + 1"]}
 
 
@@ -68,8 +69,8 @@ def render(pr):
     if pr["str"]:
         L += ['  parameter String s = "abc";']
     L += ["  constant Real c = 5;", "  input Real u(min = -p);"]
-    L += ["  Real x%s;" % _mods(xk, ATTRS)]
-    L += ["  Real y%s;" % _mods([pr["yk"]] * 3, ATTRS[1:])]
+    L += ["  Real x%s;" % _mods(xk + [pr.get("xf", "none")], ATTRS)]
+    L += ["  Real y%s;" % _mods([pr["yk"]] * 3, ATTRS[1:4])]
     if pr["typed"]:
         L += ["  Integer k;", "  Boolean f;"]
     L += ["  Real v[2];", "  Real _a1;", "  Real _b1;"]
@@ -175,8 +176,8 @@ def run_program(job):
                         continue
                     row = db[ent["cat"] + "__metadata_dependent"][names.index(ent["name"])]
                     # CASADI_ATTRIBUTES = value, min, max, start, fixed, nominal
-                    real = {"start": int(row[3]), "min": int(row[1]), "max": int(row[2]), "nominal": int(row[5])}
-                    for j, at in enumerate(ATTRS):
+                    real = {"start": int(row[3]), "min": int(row[1]), "max": int(row[2]), "nominal": int(row[5]), "fixed": int(row[4])}
+                    for j, at in enumerate(ATTRS[:len(ent["dep"])]):
                         if ent["sure"][j] and real[at] != ent["dep"][j]:
                             drift["dep-class:%s" % at] = drift.get("dep-class:%s" % at, 0) + 1
                 want = [sorted(x) for x in job["expect"]["durdeps"]]
@@ -210,6 +211,33 @@ def run_program(job):
                     r = exc_record(e)
                     r.update(observable="switched-options:exception", tags=sorted([mode, "opt:%s->%s" % (pr["opt"], sib)]))
                     recs.append(r)
+            # codegen only: the source is edited and the model compiled, saved and loaded again IN THIS PROCESS while
+            # the model loaded before is still alive (its shared libraries stay mapped).  The newly loaded model
+            # must compute with the new libraries (ModelCache.tla: `held`, FreshLibHandles).
+            if mode == "codegen":
+                try:
+                    src = os.path.join(folder, "P.mo")
+                    with open(src, "w") as f:
+                        f.write(text.replace("der(x) = -p * x + u + c;", "der(x) = -3 * p * x + 2 * u + c;"))
+                    os.utime(src, (mc.BASE + 10, mc.BASE + 10))
+                    os.utime(os.path.join(folder, "P.pymoca_cache"), (mc.BASE + 5, mc.BASE + 5))
+                    fresh2 = a.transfer_model(folder, "P", dict(opts))
+                    cached2 = a.transfer_model(folder, "P", dict(opts))
+                    if type(fresh2).__name__ != "Model" or type(cached2).__name__ != "CachedModel":
+                        raise MachineryError("edit/recompile/reload step did not go miss, hit: %s %s" % (type(fresh2).__name__, type(cached2).__name__))
+                    bad4, _ = mc.compare(mc.project(fresh2), mc.project(cached2))
+                    if bad4:
+                        recs.append({"observable": "reload-with-live-model:" + "+".join(sorted({b[0] for b in bad4})),
+                                     "tags": tags, "exception_type": None,
+                                     "detail": "[%s] after an edit, recompile and save in the same process (an earlier CachedModel still alive) the newly loaded model differs from the fresh compile: %s" % (
+                                         feat, "; ".join(b[1] for b in bad4[:2]))[:800]})
+                    del fresh2, cached2
+                except MachineryError:
+                    raise
+                except Exception as e:
+                    r = exc_record(e)
+                    r.update(observable="reload-with-live-model:exception", tags=tags)
+                    recs.append(r)
             del fresh, cached
             gc.collect()
     finally:
@@ -226,7 +254,7 @@ def _tlc(job):
 def run(ctx):
     thorough = ctx.tier == "thorough"
     fam = ["attrs_thorough", "delays_thorough"] if thorough else ["attrs_quick", "delays_quick"]
-    muts = ["mut_swap", "mut_outputs", "mut_durdeps", "mut_truthy"]
+    muts = ["mut_swap", "mut_outputs", "mut_durdeps", "mut_truthy", "mut_constmx"]
     with ThreadPoolExecutor(4) as ex:
         results = dict(ex.map(_tlc, fam + muts))
     programs = []
@@ -240,7 +268,7 @@ def run(ctx):
         r = results[c]
         ctx.add_tlc(r, "mutated Save/Load (%s): RoundTrip must fail" % c)
         want = "SwitchedIsFresh" if c == "mut_truthy" else "RoundTrip"
-        if want not in r.violated:
+        if want not in r.violated and not (c == "mut_constmx" and "NoMXPickled" in r.violated):
             raise MachineryError("mutated spec %s satisfies %s: the invariant is vacuous" % (c, want))
     if not programs:
         raise MachineryError("TLC printed no program")
